@@ -170,6 +170,9 @@ func Execute(c *Case, opt ExecOptions) (rr RunResult) {
 				myrecs[i].races = simrt.RaceErrors() - before
 				myrecs[i].end = simrt.StepNow()
 				simrt.OpEnd()
+				if k := prog[i].K; k == KNewV || k == KNewR {
+					simrt.GCBetweenOps()
+				}
 			}
 		}
 	}
